@@ -64,6 +64,12 @@ CONFS = {
     'nopep526_type_first': {'claw_is_pep526': False, 'decor_type': 'FIRST'},
     'warn': {'vt': 'warn'},
     'exc': {'vt': 'valueerror'},
+    # settings that change what the transformed module does without changing the shape of the transformation
+    'o0': {'strategy': 'O0'},
+    'on': {'strategy': 'On'},
+    'tower': {'tower': True},
+    'o0_nopep526': {'strategy': 'O0', 'claw_is_pep526': False},
+    'o0_first': {'strategy': 'O0', 'decor_func': 'FIRST', 'decor_type': 'FIRST'},
 }
 # which configurations produce the same AST shape (cached bytecode may legitimately be shared)
 def ast_shape(cname):
@@ -145,6 +151,7 @@ def fingerprint(mod):
         'order': list(mod.ORDER),
         'g_bad': call(mod.g, 'x'),
         'f_bad': call(mod.f, object()),
+        'f_int': call(mod.f, 1),
         'm_bad': call(mod.K().m, 5),
         'n_bad': call(mod.K().n, 'x'),
         'k2_bad': call(mod.K2().m, 5),
@@ -157,7 +164,7 @@ def generate(rng, run, tier):
     mods = []
     for i in range(nmods):
         mods.append({'name': 'm%d' % i, 'sub': rng.choice(['h', 'h', 'u']), 'v': 0, 'future': rng.random() < 0.3,
-                     'ptype': rng.choice(['int', 'str', 'list[int]']), 'pad': ''})
+                     'ptype': rng.choice(['int', 'str', 'list[int]', 'float']), 'pad': ''})
     if not any(m['sub'] == 'h' for m in mods):
         mods[0]['sub'] = 'h'
     for m in mods:
